@@ -83,6 +83,7 @@ ops! {
     Evict = "evict", Fault;
     IterAbandon = "iter_abandon", Fault;
     CompileAbort = "compile_abort", Fault;
+    TrapCall = "trap_call", Fault;
 }
 
 #[derive(Clone, Debug, PartialEq, Eq)]
@@ -377,7 +378,7 @@ impl OpKind {
             Compl | Star | Plus | Opt | Exp | Loop | LoopInf | CharDeriv | StrDeriv | ClassDeriv
             | ClassDerivUnchecked | SetDeriv | SetDerivUnchecked | StrInRe | IsEmpty | GetString
             | StartChar | StartClass | ClassInfo | Compile | TryCompile | Closure | Replace
-            | ReplaceAll | Reissue | ComplTwice | LoopOverflow | IterAbandon | CompileAbort => {
+            | ReplaceAll | Reissue | ComplTwice | LoopOverflow | IterAbandon | CompileAbort | TrapCall => {
                 (1, false)
             }
             ReNone | All | AllChar | Eps | Char | Range | SmtRange | Str | BadChar | BadRange
